@@ -20,7 +20,7 @@ noncomputable instance : HasToUnitless ℝ := ⟨id⟩
 theorem toUnitless_def (x : ℝ) : HasToUnitless.toUnitless x = x := rfl
 
 theorem waterDensityU_eq (Tsi K m kg : ℝ) (hK : K ≠ 0) :
-    waterDensityU Tsi K m kg = waterDensity (Tsi / K) * (kg / m ^ 3) := by
+    waterDensityU Tsi K kg m = waterDensity (Tsi / K) * (kg / m ^ 3) := by
   obtain ⟨τ, rfl⟩ : ∃ τ, Tsi = τ * K := ⟨Tsi / K, by field_simp⟩
   simp only [waterDensityU, waterDensity, NumReal.npow_eq_pow, NumReal.dec_eq]
   push_cast
@@ -78,7 +78,7 @@ theorem waterDiffusivityErr_zero (T : ℝ) : waterDiffusivityErr T 0 0 = waterDi
   norm_num
 
 theorem waterPermittivityU_eq (τ p K bar : ℝ) (hK : K ≠ 0) (hb : bar ≠ 0) :
-    waterPermittivityU (τ * K) (p * bar) K bar = waterPermittivity τ p := by
+    waterPermittivityU (τ * K) (p * bar) bar K = waterPermittivity τ p := by
   simp only [waterPermittivityU, waterPermittivity, NumReal.npow_eq_pow, NumReal.dec_eq, NumReal.exp_def, NumReal.log_def, toUnitless_def,
     Int.cast_ofNat, Nat.cast_ofNat, Nat.cast_one, Int.cast_neg]
   have e1 : ∀ a b : ℝ, a / K * (τ * K) + b / K ^ 2 * (τ * K) ^ 2 = a / 1 * τ + b / 1 ^ 2 * τ ^ 2 := by
@@ -115,7 +115,7 @@ theorem henryHAtTU_eq (τ H θ τ0 K : ℝ) (hK : K ≠ 0) :
   field_simp
 
 theorem nernstPotentialU_eq (a b z τ C mol J K x : ℝ) (hK : K ≠ 0) (hmol : mol ≠ 0) (hx : x ≠ 0) :
-    nernstPotentialU (a * x) (b * x) z (τ * K) C mol J K = nernstPotential a b z τ * (J / C) := by
+    nernstPotentialU (a * x) (b * x) z (τ * K) C J K mol = nernstPotential a b z τ * (J / C) := by
   simp only [nernstPotentialU, nernstPotential, NumReal.dec_eq, NumReal.log_def, toUnitless_def,
     Int.cast_ofNat, Nat.cast_ofNat, Nat.cast_one, Int.cast_neg]
   rw [mul_div_mul_right _ _ hx]
@@ -126,7 +126,7 @@ theorem nernstPotentialU_eq (a b z τ C mol J K x : ℝ) (hK : K ≠ 0) (hmol : 
   field_simp
 
 theorem mobilityU_eq (δ z τ J K C d : ℝ) (hK : K ≠ 0) :
-    mobilityU (δ * d) z (τ * K) J K C = mobility δ z τ * (d * C / J) := by
+    mobilityU (δ * d) z (τ * K) C J K = mobility δ z τ * (d * C / J) := by
   simp only [mobilityU, mobility, NumReal.dec_eq, Int.cast_ofNat, Nat.cast_ofNat, Nat.cast_one, Int.cast_neg]
   by_cases hJ : J = 0
   · subst hJ; simp
@@ -136,7 +136,7 @@ theorem mobilityU_eq (δ z τ J K C d : ℝ) (hK : K ≠ 0) :
 
 /-! ## range predicates -/
 theorem waterDensityWarns_iff (T : ℝ) : waterDensityWarns T = true ↔ (T < 273.15 ∨ 313.15 < T) := by
-  simp only [waterDensityWarns, NumReal.npow_eq_pow, NumReal.dec_eq, Int.cast_ofNat, Nat.cast_ofNat, Nat.cast_one, Int.cast_neg,
+  simp only [waterDensityWarns, PyFn.warnGate, PyFn.anyS, Bool.true_and, NumReal.npow_eq_pow, NumReal.dec_eq, Int.cast_ofNat, Nat.cast_ofNat, Nat.cast_one, Int.cast_neg,
     Bool.or_eq_true, decide_eq_true_eq, Nat.cast_zero]
   constructor
   · rintro (h | h)
@@ -147,7 +147,7 @@ theorem waterDensityWarns_iff (T : ℝ) : waterDensityWarns T = true ↔ (T < 27
     · right; linarith
 
 theorem waterViscosityWarns_iff (T : ℝ) : waterViscosityWarns T = true ↔ (T < 273.15 ∨ 373.15 < T) := by
-  simp only [waterViscosityWarns, NumReal.npow_eq_pow, NumReal.dec_eq, Int.cast_ofNat, Nat.cast_ofNat, Nat.cast_one, Int.cast_neg,
+  simp only [waterViscosityWarns, PyFn.warnGate, PyFn.anyS, Bool.true_and, NumReal.npow_eq_pow, NumReal.dec_eq, Int.cast_ofNat, Nat.cast_ofNat, Nat.cast_one, Int.cast_neg,
     Bool.or_eq_true, decide_eq_true_eq, Nat.cast_zero]
   constructor
   · rintro (h | h)
@@ -158,7 +158,7 @@ theorem waterViscosityWarns_iff (T : ℝ) : waterViscosityWarns T = true ↔ (T 
     · right; linarith
 
 theorem waterDiffusivityWarns_iff (T : ℝ) : waterDiffusivityWarns T = true ↔ (T < 273.15 ∨ 373.15 < T) := by
-  simp only [waterDiffusivityWarns, NumReal.npow_eq_pow, NumReal.dec_eq, Int.cast_ofNat, Nat.cast_ofNat, Nat.cast_one, Int.cast_neg,
+  simp only [waterDiffusivityWarns, PyFn.warnGate, PyFn.anyS, Bool.true_and, NumReal.npow_eq_pow, NumReal.dec_eq, Int.cast_ofNat, Nat.cast_ofNat, Nat.cast_one, Int.cast_neg,
     Bool.or_eq_true, decide_eq_true_eq, Nat.cast_zero]
   constructor
   · rintro (h | h)
@@ -171,7 +171,7 @@ theorem waterDiffusivityWarns_iff (T : ℝ) : waterDiffusivityWarns T = true ↔
 /-- as coded: temperature outside 0-350 °C, or (inside and) above 70 °C with P > 2000 bar; the 5000-bar branch is dead -/
 theorem waterPermittivityWarns_iff (T P : ℝ) :
     waterPermittivityWarns T P = true ↔ (T < 273.15 ∨ 623.15 < T ∨ (343.15 < T ∧ 2000 < P)) := by
-  simp only [waterPermittivityWarns, NumReal.npow_eq_pow, NumReal.dec_eq, Int.cast_ofNat, Nat.cast_ofNat, Nat.cast_one, Int.cast_neg,
+  simp only [waterPermittivityWarns, PyFn.warnGate, PyFn.anyS, Bool.true_and, NumReal.npow_eq_pow, NumReal.dec_eq, Int.cast_ofNat, Nat.cast_ofNat, Nat.cast_one, Int.cast_neg,
     Bool.or_eq_true, Bool.and_eq_true, Bool.not_eq_true', decide_eq_true_eq, decide_eq_false_iff_not, Nat.cast_zero, not_or, not_lt]
   constructor
   · rintro ((h | h) | h)
@@ -195,7 +195,7 @@ theorem waterPermittivityWarns_iff (T P : ℝ) :
 
 theorem sulfuricWarns_iff (w T : ℝ) :
     sulfuricTWarns w T = true ↔ (T < 273.15 ∨ 323.15 < T ∨ w < 0.1 ∨ 0.9 < w) := by
-  simp only [sulfuricTWarns, NumReal.npow_eq_pow, NumReal.dec_eq, Int.cast_ofNat, Nat.cast_ofNat, Nat.cast_one, Int.cast_neg,
+  simp only [sulfuricTWarns, PyFn.warnGate, PyFn.anyS, Bool.true_and, NumReal.npow_eq_pow, NumReal.dec_eq, Int.cast_ofNat, Nat.cast_ofNat, Nat.cast_one, Int.cast_neg,
     Bool.or_eq_true, decide_eq_true_eq, Nat.cast_zero]
   constructor
   · rintro ((h | h) | (h | h))
@@ -379,17 +379,17 @@ theorem mobility_einstein (D z T kB e : ℝ) (hk : kB ≠ 0) (hT : T ≠ 0) : mo
 
 /-! ## sulfuric acid, density_from_concentration, Schumpe -/
 /-! sulfuric acid -/
-theorem sulfuricTU_eq (w τ K m kg : ℝ) (hK : K ≠ 0) : sulfuricTU w (τ * K) K m kg = sulfuricT w τ := by
+theorem sulfuricTU_eq (w τ K m kg : ℝ) (hK : K ≠ 0) : sulfuricTU w (τ * K) K kg m = sulfuricT w τ := by
   simp only [sulfuricTU, sulfuricT, NumReal.dec_eq, Int.cast_ofNat, Nat.cast_one, toUnitless_def]
   field_simp
 
-theorem sulfuricUnitU_eq (w T K m kg : ℝ) : sulfuricUnitU w T K m kg = kg / m ^ 3 := by
+theorem sulfuricUnitU_eq (w T K m kg : ℝ) : sulfuricUnitU w T K kg m = kg / m ^ 3 := by
   simp only [sulfuricUnitU, NumReal.npow_eq_pow]
 
 theorem sulfuricAcidDensityU_eq (w τ K m kg : ℝ) (hK : K ≠ 0) :
-    sulfuricAcidDensityU w (τ * K) K m kg = sulfuricAcidDensity w τ * (kg / m ^ 3) := by
+    sulfuricAcidDensityU w (τ * K) K kg m = sulfuricAcidDensity w τ * (kg / m ^ 3) := by
   unfold sulfuricAcidDensityU sulfuricAcidDensity
-  rw [sulfuricTU_eq _ _ _ _ _ hK, sulfuricUnitU_eq]
+  rw [sulfuricTU_eq w τ K m kg hK, sulfuricUnitU_eq w (τ * K) K m kg]
 
 /-- power-sum specification of the hand model -/
 theorem rowSum_eq (wi t : ℝ) (row : List ℝ) (j : Nat) :
@@ -437,5 +437,177 @@ theorem lgTerms_scale (M : ℝ) (hM : M ≠ 0) (gas : String) (l : List (String 
 theorem anchor_sulfuric_doc : (1396 : Rat) ≤ sulfuricAcidDensity (1/2 : Rat) 293 ∧ sulfuricAcidDensity (1/2 : Rat) 293 < 1397 := by decide +kernel
 theorem anchor_sulfuric_test : (10637 : Rat) / 10 < sulfuricAcidDensity (1/10 : Rat) 298 ∧ sulfuricAcidDensity (1/10 : Rat) 298 < 10639 / 10 := by decide +kernel
 
+
+
+/-! ## L2: the quantity algebra over ℝ -/
+noncomputable instance : BEq ℝ := ⟨fun a b => decide (a = b)⟩
+theorem beq_real (a b : ℝ) : (a == b) = decide (a = b) := rfl
+
+theorem UVL.add_def (a b : UV ℝ) : a + b = UV.addLike (· + ·) a b := rfl
+theorem UVL.sub_def (a b : UV ℝ) : a - b = UV.addLike (· - ·) a b := rfl
+theorem UVL.mul_def (a b : UV ℝ) : a * b = UV.mul a b := rfl
+theorem UVL.div_def (a b : UV ℝ) : a / b = UV.div a b := rfl
+theorem UVL.neg_def (a : UV ℝ) : -a = UV.neg a := rfl
+theorem UVL.nat_def (n : Nat) : ((n : Nat) : UV ℝ) = UV.num (n : ℝ) := rfl
+theorem UVL.tu_def (x : UV ℝ) : HasToUnitless.toUnitless x = (UV.toUnitless x : UV ℝ) := rfl
+theorem UVL.exp_def (x : UV ℝ) : HasExp.exp x = UV.transc Real.exp x := rfl
+theorem UVL.log_def (x : UV ℝ) : HasLog.log x = UV.transc Real.log x := rfl
+theorem UVL.rpow_def (x y : UV ℝ) : HasRPow.rpow x y = UV.rpow x y := rfl
+theorem UVL.dec_def (m : Int) (k : Nat) : (Num.dec m k : UV ℝ) = UV.num (Num.dec m k : ℝ) := by
+  unfold Num.dec Num.ofInt; split <;> rfl
+theorem UVrawL.add_def (a b : UVraw ℝ) : a + b = UV.addLike (· + ·) a b := rfl
+theorem UVrawL.sub_def (a b : UVraw ℝ) : a - b = UV.addLike (· - ·) a b := rfl
+theorem UVrawL.mul_def (a b : UVraw ℝ) : a * b = UV.mul a b := rfl
+theorem UVrawL.div_def (a b : UVraw ℝ) : a / b = UV.div a b := rfl
+theorem UVrawL.neg_def (a : UVraw ℝ) : -a = UV.neg a := rfl
+theorem UVrawL.nat_def (n : Nat) : ((n : Nat) : UVraw ℝ) = UV.num (n : ℝ) := rfl
+theorem UVrawL.tu_def (x : UVraw ℝ) : HasToUnitless.toUnitless x = (x : UV ℝ) := rfl
+theorem UVrawL.exp_def (x : UVraw ℝ) : HasExp.exp x = UV.transc Real.exp x := rfl
+theorem UVrawL.log_def (x : UVraw ℝ) : HasLog.log x = UV.transc Real.log x := rfl
+theorem UVrawL.rpow_def (x y : UVraw ℝ) : HasRPow.rpow x y = UV.rpow x y := rfl
+theorem UVrawL.dec_def (m : Int) (k : Nat) : (Num.dec m k : UVraw ℝ) = UV.num (Num.dec m k : ℝ) := by
+  unfold Num.dec Num.ofInt; split <;> rfl
+theorem UVmL.add_def (a b : UVm ℝ) : a + b = UV.addLike (· + ·) a b := rfl
+theorem UVmL.sub_def (a b : UVm ℝ) : a - b = UV.addLike (· - ·) a b := rfl
+theorem UVmL.mul_def (a b : UVm ℝ) : a * b = UV.mul a b := rfl
+theorem UVmL.div_def (a b : UVm ℝ) : a / b = UV.div a b := rfl
+theorem UVmL.neg_def (a : UVm ℝ) : -a = UV.neg a := rfl
+theorem UVmL.nat_def (n : Nat) : ((n : Nat) : UVm ℝ) = UV.num (n : ℝ) := rfl
+theorem UVmL.tu_def (x : UVm ℝ) : HasToUnitless.toUnitless x = (UV.toUnitless x : UV ℝ) := rfl
+theorem UVmL.log_def (x : UVm ℝ) : HasLog.log x = UV.mathFn Real.log x := rfl
+theorem UVmL.dec_def (m : Int) (k : Nat) : (Num.dec m k : UVm ℝ) = UV.num (Num.dec m k : ℝ) := by
+  unfold Num.dec Num.ofInt; split <;> rfl
+theorem UVmrawL.add_def (a b : UVmraw ℝ) : a + b = UV.addLike (· + ·) a b := rfl
+theorem UVmrawL.sub_def (a b : UVmraw ℝ) : a - b = UV.addLike (· - ·) a b := rfl
+theorem UVmrawL.mul_def (a b : UVmraw ℝ) : a * b = UV.mul a b := rfl
+theorem UVmrawL.div_def (a b : UVmraw ℝ) : a / b = UV.div a b := rfl
+theorem UVmrawL.neg_def (a : UVmraw ℝ) : -a = UV.neg a := rfl
+theorem UVmrawL.nat_def (n : Nat) : ((n : Nat) : UVmraw ℝ) = UV.num (n : ℝ) := rfl
+theorem UVmrawL.tu_def (x : UVmraw ℝ) : HasToUnitless.toUnitless x = (x : UV ℝ) := rfl
+theorem UVmrawL.log_def (x : UVmraw ℝ) : HasLog.log x = UV.mathFn Real.log x := rfl
+theorem UVmrawL.dec_def (m : Int) (k : Nat) : (Num.dec m k : UVmraw ℝ) = UV.num (Num.dec m k : ℝ) := by
+  unfold Num.dec Num.ofInt; split <;> rfl
+
+theorem dimsZero_sub_self (d : Units.Dims) : dimsZero (Units.Dims.sub d d) = true := by
+  induction d with
+  | nil => rfl
+  | cons a r ih =>
+    simp only [dimsZero, Units.Dims.sub, List.zipWith_cons_cons, List.all_cons, sub_self, Bool.and_eq_true] at ih ⊢
+    exact ⟨by decide, ih⟩
+
+def Tdim' : Units.Dims := [0, 0, 0, 0, 1, 0, 0]
+
+theorem dz1 : dimsZero (Units.Dims.add Tdim' (Units.Dims.smul (-1) Tdim')) = true := by decide
+
+theorem henryDefaultU_L2 (τ f H θ g k : ℝ) :
+    henryHAtTDefaultU (α := UV ℝ) (UV.mk τ f Tdim') (UV.num H) (UV.mk θ g Tdim') (UV.mk 1 k Tdim')
+      = UV.num (H * Real.exp (θ * (1 / τ - (1 / (298.15 * 1)) * ((1 / k) / (1 / f))) * (g * (1 / f)))) := by
+  simp only [henryHAtTDefaultU, UV.mk, UVL.add_def, UVL.sub_def, UVL.mul_def, UVL.div_def, UVL.nat_def, UVL.tu_def, UVL.exp_def, UVL.dec_def,
+    UV.div, UV.mul, UV.addLike, UV.toUnitless, UV.transc, NumReal.dec_eq, beq_self_eq_true, if_true, dz1]
+  norm_num
+
+def Pdim : Units.Dims := [-1, 1, -1, 0, 0, 0, 0]
+theorem dz2 : (Tdim' == Units.Dims.add (Units.Dims.smul (-1) Tdim') (Units.Dims.add Tdim' Tdim')) = true := by decide
+
+theorem sulfuricTU_L2 (w x f k m g : ℝ) (Ld Md : Units.Dims) :
+    sulfuricTU (α := UV ℝ) (UV.num w) (UV.mk x f Tdim') (UV.mk 1 k Tdim') (UV.mk 1 g Md) (UV.mk 1 m Ld)
+      = UV.num ((x - 273.15 * 1 * (k / f)) / 1 * (f / k)) := by
+  simp only [sulfuricTU, UV.mk, UVL.add_def, UVL.sub_def, UVL.mul_def, UVL.div_def, UVL.nat_def, UVL.tu_def, UVL.dec_def,
+    UV.div, UV.mul, UV.addLike, UV.toUnitless, NumReal.dec_eq, NumReal.npow_eq_pow, beq_self_eq_true, if_true, dimsZero_sub_self]
+  norm_num
+
+theorem viscU_L2 (x f c k : ℝ) (hf : f ≠ 0) (hk : k ≠ 0) :
+    waterViscosityU (α := UV ℝ) (UV.mk x f Tdim') (UV.mk 1 c Pdim) (UV.mk 1 k Tdim') = UV.mk (waterViscosity (x * f / k)) c Pdim := by
+  obtain ⟨s, rfl⟩ : ∃ s, x = s * (k / f) := ⟨x * f / k, by field_simp⟩
+  have hs : s * (k / f) * f / k = s := by field_simp
+  rw [hs]
+  simp only [waterViscosityU, UV.mk, UVL.add_def, UVL.sub_def, UVL.mul_def, UVL.div_def, UVL.nat_def, UVL.tu_def, UVL.dec_def, UVL.rpow_def,
+    UV.div, UV.mul, UV.addLike, UV.toUnitless, UV.rpow, NumReal.dec_eq, NumReal.npow_eq_pow, Num.npow, beq_self_eq_true, if_true, dimsZero_sub_self, dz2,
+    Int.cast_ofNat, Nat.cast_ofNat, Nat.cast_one, NumReal.rpow_def]
+  refine congrArg (fun m => UV.qty ⟨m, ⟨c, Pdim⟩⟩) ?_
+  rw [waterViscosity_eq, viscExponent]
+  have hr : k / f ≠ 0 := div_ne_zero hk hf
+  have hN : 11709 / 10 ^ 4 * (20 * 1 - (s * (k / f) - 27315 / 10 ^ 2 * 1 * (k / f)) * (f / k)) -
+      1827 / 10 ^ 6 / 1 * (1 * (s * (k / f) - 27315 / 10 ^ 2 * 1 * (k / f) - 20 * 1 * (k / f)) *
+        (s * (k / f) - 27315 / 10 ^ 2 * 1 * (k / f) - 20 * 1 * (k / f))) * (1 / k * (f * f) / k)
+      = 1.1709 * (20 - (s - 273.15)) - 1827e-6 * (s - 273.15 - 20) ^ 2 := by
+    field_simp
+    ring
+  have hD : s * (k / f) - 27315 / 10 ^ 2 * 1 * (k / f) + 8993 / 10 ^ 2 * 1 * (k / f) = (k / f) * (s - 273.15 + 89.93) := by ring
+  have hE : ∀ N D : ℝ, N / (k / f * D) * (k / f) = N / D := by
+    intro N D; rw [div_mul_eq_mul_div, mul_comm N, mul_div_mul_left _ _ hr]
+  rw [hN, hD, hE]
+  norm_num
+
+theorem nernstCU_L2 (a x b y z τ k F R : ℝ) (d Td : Units.Dims) :
+    nernstPotentialCU (α := UVm ℝ) (UV.mk a x d) (UV.mk b y d) (UV.num z) (UV.mk τ k Td) (UV.num F) (UV.num R)
+      = UV.mk (R * τ / (z * F) * Real.log (a / b * (x / y))) k Td := by
+  simp only [nernstPotentialCU, UV.mk, HDiv.hDiv, Div.div, HMul.hMul, Mul.mul, UV.div, UV.mul, HasToUnitless.toUnitless, UV.toUnitless,
+    dimsZero_sub_self, if_true, HasLog.log, UV.mathFn]
+  rfl
+
+theorem UV.si_mk (m f : ℝ) (d : Units.Dims) : (UV.mk m f d).si = some (m * f, d) := rfl
+
+theorem nernstCU_L2_si (a x b y z τ k F R : ℝ) (d Td : Units.Dims) :
+    UV.si (nernstPotentialCU (α := UVm ℝ) (UV.mk a x d) (UV.mk b y d) (UV.num z) (UV.mk τ k Td) (UV.num F) (UV.num R))
+      = some (R * (τ * k) / (z * F) * Real.log ((a * x) / (b * y)), Td) := by
+  rw [nernstCU_L2, UV.si_mk, div_mul_div_comm]
+  congr 2
+  ring
+
+/-- the pre-repair text (`to_unitless` removed) -/
+theorem nernstCU_raw_L2 (a x b y z τ k F R : ℝ) (d Td : Units.Dims) :
+    nernstPotentialCU (α := UVmraw ℝ) (UV.mk a x d) (UV.mk b y d) (UV.num z) (UV.mk τ k Td) (UV.num F) (UV.num R)
+      = UV.mk (R * τ / (z * F) * Real.log (a / b)) k Td := by
+  simp only [nernstPotentialCU, UV.mk, HDiv.hDiv, Div.div, HMul.hMul, Mul.mul, UV.div, UV.mul, HasToUnitless.toUnitless, id,
+    HasLog.log, UV.mathFn]
+  rfl
+
+def cdim : Units.Dims := [-3, 0, 0, 0, 0, 0, 1]
+
+theorem nernst_raw_witness :
+    UV.si (nernstPotentialCU (α := UVmraw ℝ) (UV.mk 145 1 cdim) (UV.mk 0.015 1000 cdim) (UV.num 1) (UV.mk 310 1 Tdim') (UV.num 96485.3399) (UV.num 8.314472))
+    ≠ UV.si (nernstPotentialCU (α := UVmraw ℝ) (UV.mk 0.145 1000 cdim) (UV.mk 0.015 1000 cdim) (UV.num 1) (UV.mk 310 1 Tdim') (UV.num 96485.3399) (UV.num 8.314472)) := by
+  rw [nernstCU_raw_L2, nernstCU_raw_L2, UV.si_mk, UV.si_mk]
+  intro h
+  have h1 := (Prod.mk.inj (Option.some.inj h)).1
+  have hlog : Real.log (145 / 0.015) = Real.log (0.145 / 0.015) := by
+    have hc : (8.314472 * 310 / (1 * 96485.3399) : ℝ) ≠ 0 := by norm_num
+    have := mul_right_cancel₀ (one_ne_zero) h1
+    exact mul_left_cancel₀ hc this
+  have := Real.log_injOn_pos (by norm_num : (145 / 0.015 : ℝ) ∈ Set.Ioi 0) (by norm_num : (0.145 / 0.015 : ℝ) ∈ Set.Ioi 0) hlog
+  norm_num at this
+
+
+/-! raw witnesses over ℚ: the same generated text with `to_unitless` doing nothing; `exp` / `**` are arbitrary (never reached) -/
+/-- the "must be dimensionless" refusal does not depend on the function applied: it is raised before -/
+theorem UV.transc_err {α : Type} [BEq α] [NatCast α] (f g : α → α) (q : Units.Quantity α)
+    (h : (dimsZero q.unit.dims && q.unit.factor == ((1 : Nat) : α)) = false) :
+    UV.transc f (.qty q) = .err "ValueError" ∧ UV.transc g (.qty q) = .err "ValueError" := by
+  simp [UV.transc, h]
+
+/-- placeholder for `exp` / `**` on ℚ, used ONLY to instantiate the generated texts at `UVraw ℚ` in the two witnesses below, where the
+    dimension check refuses before the function is applied (`UV.transc_err`: the refusal is the same for every function) -/
+def ratPlaceholder : Rat → Rat := fun _ => 0
+
+theorem henry_raw_witness :
+    (letI : HasExp Rat := ⟨ratPlaceholder⟩
+     UV.si (henryHAtTDefaultU (α := UVraw Rat) (UV.mk 300000 (1/1000) Tdim') (UV.num (12/10000)) (UV.mk 1800 1 Tdim') (UV.mk 1 1 Tdim'))) = none := by
+  decide +kernel
+
+theorem visc_raw_witness :
+    (letI : HasRPow Rat := ⟨fun x _ => ratPlaceholder x⟩
+     UV.si (waterViscosityU (α := UVraw Rat) (UV.mk 300000 (1/1000) Tdim') (UV.mk 1 (1/1000) Pdim) (UV.mk 1 1 Tdim'))) = none := by
+  decide +kernel
+
+theorem sulfuric_raw_witness :
+    UV.si (sulfuricAcidDensityUVraw (1/2 : Rat) (UV.mk 300000 (1/1000) Tdim') (UV.mk 1 1 Tdim') (UV.mk 1 1 [0,1,0,0,0,0,0]) (UV.mk 1 1 [1,0,0,0,0,0,0]))
+      ≠ UV.si (sulfuricAcidDensityUVraw (1/2 : Rat) (UV.mk 300 1 Tdim') (UV.mk 1 1 Tdim') (UV.mk 1 1 [0,1,0,0,0,0,0]) (UV.mk 1 1 [1,0,0,0,0,0,0])) := by
+  decide +kernel
+
+theorem sulfuric_L2_example :
+    UV.si (sulfuricAcidDensityUV (1/2 : Rat) (UV.mk 300000 (1/1000) Tdim') (UV.mk 1 1 Tdim') (UV.mk 1 1 [0,1,0,0,0,0,0]) (UV.mk 1 1 [1,0,0,0,0,0,0]))
+      = UV.si (sulfuricAcidDensityUV (1/2 : Rat) (UV.mk 300 1 Tdim') (UV.mk 1 1 Tdim') (UV.mk 1 1 [0,1,0,0,0,0,0]) (UV.mk 1 1 [1,0,0,0,0,0,0])) := by
+  decide +kernel
 
 end ChemModel.PhysProps
